@@ -24,6 +24,7 @@ const (
 	CNil                // the nil value of a pointer/interface/slice/map/func type
 	CType               // a non-nil interface value whose dynamic type is T (contents unknown)
 	CTuple              // multiple results
+	CSym                // an opaque symbol standing for a caller-supplied object (nothing can be computed from it)
 	CTop                // unknown
 )
 
@@ -33,6 +34,7 @@ type CVal struct {
 	C   constant.Value
 	T   types.Type
 	Tup []CVal
+	S   string
 }
 
 var (
@@ -45,6 +47,7 @@ func IntV(k int64) CVal            { return CVal{K: CConst, C: constant.MakeInt6
 func NilV() CVal                   { return CVal{K: CNil} }
 func DynV(t types.Type) CVal       { return CVal{K: CType, T: t} }
 func TupleV(vs ...CVal) CVal       { return CVal{K: CTuple, Tup: vs} }
+func SymV(name string) CVal        { return CVal{K: CSym, S: name} }
 
 func (v CVal) String() string {
 	switch v.K {
@@ -56,6 +59,8 @@ func (v CVal) String() string {
 		return "nil"
 	case CType:
 		return "dyn(" + TypeShort(v.T) + ")"
+	case CSym:
+		return "sym(" + v.S + ")"
 	case CTuple:
 		var ps []string
 		for _, e := range v.Tup {
@@ -96,6 +101,8 @@ func (a CVal) eq(b CVal) bool {
 		return a.C.Kind() == b.C.Kind() && constant.Compare(a.C, token.EQL, b.C)
 	case CType:
 		return types.Identical(a.T, b.T)
+	case CSym:
+		return a.S == b.S
 	case CTuple:
 		if len(a.Tup) != len(b.Tup) {
 			return false
@@ -131,9 +138,13 @@ func meet(a, b CVal) CVal {
 type ConstEval struct {
 	// Override is consulted for every value before the default transfer function; ok=true fixes the value.
 	Override func(fn *ssa.Function, v ssa.Value, args []CVal) (CVal, bool)
+	// OverrideIn is like Override but also receives the activation (to look at the abstract values of other operands).
+	OverrideIn func(res *CEResult, v ssa.Value, args []CVal) (CVal, bool)
 	// Inline decides whether a statically resolved callee is evaluated (default: every function with a body).
-	Inline   func(callee *ssa.Function) bool
-	MaxDepth int
+	Inline func(callee *ssa.Function) bool
+	// InlineArgs, when set, replaces Inline and also sees the abstract arguments.
+	InlineArgs func(callee *ssa.Function, args []CVal) bool
+	MaxDepth   int
 	// Trace receives every evaluated activation (for reachability queries inside callees).
 	Trace []*CEResult
 
@@ -149,6 +160,8 @@ type CEResult struct {
 	Reach map[*ssa.BasicBlock]bool
 	Ret   CVal // meet of the operands of the reachable returns (tuple when n>1); Bot when none is reachable
 	Rets  []*ssa.Return
+	Edge  map[[2]int]bool         // reachable CFG edges (from block index, to block index)
+	Sub   map[*ssa.Call]*CEResult // the activation evaluated for each inlined call (last iteration)
 }
 
 // Of returns the abstract value of v in this activation.
@@ -243,7 +256,7 @@ func (e *ConstEval) Run(fn *ssa.Function, args []CVal) *CEResult {
 	if e.MaxDepth == 0 {
 		e.MaxDepth = 6
 	}
-	res := &CEResult{Fn: fn, Args: args, Val: map[ssa.Value]CVal{}, Reach: map[*ssa.BasicBlock]bool{}, Ret: Bot}
+	res := &CEResult{Fn: fn, Args: args, Val: map[ssa.Value]CVal{}, Reach: map[*ssa.BasicBlock]bool{}, Ret: Bot, Sub: map[*ssa.Call]*CEResult{}}
 	if len(fn.Blocks) == 0 {
 		res.Ret = Top
 		return res
@@ -266,6 +279,7 @@ func (e *ConstEval) Run(fn *ssa.Function, args []CVal) *CEResult {
 		res.Val[fv] = Top
 	}
 	edge := map[[2]int]bool{}
+	res.Edge = edge
 	res.Reach[fn.Blocks[0]] = true
 	set := func(v ssa.Value, nv CVal) bool {
 		old := res.Val[v]
@@ -377,6 +391,11 @@ func (e *ConstEval) transfer(fn *ssa.Function, res *CEResult, v ssa.Value) CVal 
 	}
 	if e.Override != nil {
 		if o, ok := e.Override(fn, v, args); ok {
+			return o
+		}
+	}
+	if e.OverrideIn != nil {
+		if o, ok := e.OverrideIn(res, v, args); ok {
 			return o
 		}
 	}
@@ -525,12 +544,12 @@ func (e *ConstEval) transfer(fn *ssa.Function, res *CEResult, v ssa.Value) CVal 
 				return Bot
 			}
 		}
-		return e.call(fn, x, args)
+		return e.call(fn, res, x, args)
 	}
 	return Top
 }
 
-func (e *ConstEval) call(fn *ssa.Function, c *ssa.Call, args []CVal) CVal {
+func (e *ConstEval) call(fn *ssa.Function, res *CEResult, c *ssa.Call, args []CVal) CVal {
 	if b, ok := c.Call.Value.(*ssa.Builtin); ok {
 		if b.Name() == "len" && len(args) == 1 && args[0].K == CConst && args[0].C.Kind() == constant.String {
 			return IntV(int64(len(constant.StringVal(args[0].C))))
@@ -558,7 +577,11 @@ func (e *ConstEval) call(fn *ssa.Function, c *ssa.Call, args []CVal) CVal {
 	if callee == nil || len(callee.Blocks) == 0 || len(e.stack) >= e.MaxDepth {
 		return Top
 	}
-	if e.Inline != nil && !e.Inline(callee) {
+	if e.InlineArgs != nil {
+		if !e.InlineArgs(callee, args) {
+			return Top
+		}
+	} else if e.Inline != nil && !e.Inline(callee) {
 		return Top
 	}
 	for _, s := range e.stack {
@@ -567,6 +590,7 @@ func (e *ConstEval) call(fn *ssa.Function, c *ssa.Call, args []CVal) CVal {
 		}
 	}
 	sub := e.Run(callee, args)
+	res.Sub[c] = sub
 	if sub.Ret.K == CBot {
 		return Bot // the callee cannot return (it panics or loops): nothing after the call is reached
 	}
